@@ -49,7 +49,14 @@ IMPORTS = {
     "C14": [
         ("C16", ["C16.W2"], "replacement and merging read the definitions index: it is only ever added to (a replaced definition's schema must stay available for structural merging)"),
     ],
+    "C11": [
+        ("C15", ["C15.D4"], "which string conversions a replaced type is taken to have (`T: ?FromStr`, `T: Display`) decides which forwarding FromStr/Display impls are emitted for types wrapping it: an opt-out that is lost yields a FromStr that is not the wire format"),
+    ],
+    "C13": [
+        ("C16", ["C16.W8"], "an external path stands for its schema together with its converted parameters: native entries are de-duplicated by their full structure, not by the path alone"),
+    ],
     "C17": [
+        ("C14", ["C14.W4"], "has_impl for a replaced type answers from the impl list stored by the setter: it is the list the user gave last, not an accumulation"),
         ("C11", ["C11.D1"], "has_impl answers true for an enum through the bespoke-impl flags: the flags are set only where the emitted impl exists and type-checks"),
     ],
     "C18": [
@@ -59,6 +66,7 @@ IMPORTS = {
         ("C14", ["C14.T1"], "the base derives (Serialize, Deserialize, Debug, Clone) survive the assembly of the derive list whatever extra derives the user adds"),
     ],
     "C16": [
+        ("C06", ["C06.W1"], "every entry created by a call is finalised by that call: the definitions do not depend on which call happened to create a shared sub-type"),
         ("C14", ["C14.W2"], "the name of a patched type is a pure function of the settings, not of what the space already contains: re-adding a schema finds the registered type"),
         ("C02", ["C02.W4"], "an id handed out for a schema resolves to that schema's structure: a name hit is not answered with another schema's type"),
     ],
